@@ -21,7 +21,7 @@ def load_keys():
 
 def sany_all():
     for m in sorted(os.listdir(run.SPEC)):
-        if m.endswith(".tla"):
+        if m.endswith(".tla") and "_TTrace_" not in m:
             p = subprocess.run(["tla-sany", m], cwd=run.SPEC, stdout=subprocess.PIPE, stderr=subprocess.STDOUT, text=True)
             if p.returncode != 0 or "rror" in p.stdout.replace("Semantic errors", ""):
                 if "*** Errors" in p.stdout or "Fatal" in p.stdout or p.returncode != 0:
